@@ -38,7 +38,10 @@ func comOr(j *Journal, def string) string {
 }
 
 func c14Cmd(r *simrt.Rand, j *Journal) (string, []string) {
-	switch r.Intn(9) {
+	switch r.Intn(10) {
+	case 8:
+		// training on the target itself (the documented use): its include tree is loaded for training
+		return "infer", []string{"-t", "@MAIN"}
 	case 0:
 		return "check", nil
 	case 1:
